@@ -42,9 +42,11 @@ pub enum OpK {
     /// internal maintenance, no abstract effect
     Drain,
     Search,
+    /// delete through the batch path (also used by the filtered deletes)
+    BatchDelete,
 }
 
-const OPS: &[OpK] = &[OpK::Write, OpK::Delete, OpK::Get, OpK::GetWithMeta, OpK::Bulk, OpK::MetaOnly, OpK::Exists, OpK::Drain, OpK::Search];
+const OPS: &[OpK] = &[OpK::Write, OpK::Delete, OpK::Get, OpK::GetWithMeta, OpK::Bulk, OpK::MetaOnly, OpK::Exists, OpK::Drain, OpK::Search, OpK::BatchDelete];
 
 #[derive(Clone, Debug, Serialize, Deserialize)]
 pub struct Case {
@@ -174,6 +176,14 @@ fn do_op(e: &kyrodb_engine::TieredEngine, t: &sched::Tctx, op: OpK, sel: u8, ver
             call("exists");
             let r = e.exists(id);
             ret(json!({"exists": r}));
+        }
+        OpK::BatchDelete => {
+            call("delete");
+            let r = e.batch_delete(&[id, 4242]);
+            ret(match r {
+                Ok(n) => json!({"ok": true, "existed": n > 0}),
+                Err(e) => json!({"ok": false, "err": format!("{:#}", e)}),
+            });
         }
         OpK::Drain => {
             let _ = e.flush_hot_tier(true);
@@ -453,7 +463,7 @@ impl Prop for C05 {
         80
     }
     fn rule(&self) -> String {
-        "pairs: every ordered pair of single-operation programs (9 operations x 2 ids each side) x 5 cache strategies x 3 engine shapes x every single-preemption schedule; programs: 2-3 threads x 1-3 operations x 1-4 generated preemptions; non-trivial = at least one write or delete overlaps (in real time) another operation on the same id; distinct = hash of decoded case".into()
+        "pairs: every ordered pair of single-operation programs (10 operations x 2 ids each side) x 5 cache strategies x 3 engine shapes x every single-preemption schedule; programs: 2-3 threads x 1-3 operations x 1-4 generated preemptions; non-trivial = at least one write or delete overlaps (in real time) another operation on the same id; distinct = hash of decoded case".into()
     }
     fn decode(&self, raw: &Raw, _tier: Tier) -> Case {
         let mut t = Tape::new(&raw.head);
@@ -468,7 +478,7 @@ impl Prop for C05 {
         let mut threads: Vec<Vec<(OpK, u8)>> = vec![vec![]; nthreads];
         for (i, c) in raw.chunks.iter().enumerate() {
             let mut t = Tape::new(c);
-            let op = OPS[t.weighted(&[6, 4, 3, 4, 2, 2, 2, 1, 1])];
+            let op = OPS[t.weighted(&[6, 4, 3, 4, 2, 2, 2, 1, 1, 2])];
             let sel = if t.chance(40) { 1 - focus } else { focus };
             threads[i % nthreads].push((op, sel));
         }
